@@ -80,14 +80,16 @@ extern ssize_t mpt_queue_peek(MPT_STRUCT(decode_queue) *qu, size_t max, void *ds
 	qu->_state.curr += off;
 	len = qu->_state.data.len;
 	
-	if (ret < 0 || !dst) {
+	if (!dst) {
 		return len;
 	}
 	/* get data start and length */
 	if (len > max) {
 		len = max;
 	}
-	(void) memcpy(dst, msg.base, len);
-	
+	/* decoded data may wrap around storage end */
+	if (len && mpt_queue_get(&qu->data, qu->_state.data.pos, len, dst) < 0) {
+		return MPT_ERROR(MissingData);
+	}
 	return len;
 }
